@@ -153,7 +153,7 @@ def run(chk):
                 case(t, "long", correspond=n <= 2000)
         # files: skip_shebang=True is how the importer, hy2py and the hy command read source; HyReader.parse skips the
         # shebang line outside try_parse_one_form
-        SHEBANGS = ["#!", "#!x", "#!/usr/bin/env hy", "#!\r", "#!\r\n", "#!\n", "#!\n\n", "#!/usr/bin/env hy\n", "#!x\n(a b)", "#!x\n(a",
+        SHEBANGS = ["7", "a", " 7", "\\n7", " (a)", "\\t[b]", "ab", "#!", "#!x", "#!/usr/bin/env hy", "#!\r", "#!\r\n", "#!\n", "#!\n\n", "#!/usr/bin/env hy\n", "#!x\n(a b)", "#!x\n(a",
                     "#!x\n#!y\nz", "#!x\r(a)", " #!x\n1", "#", "#! ", "#!\x00", "#!\u2028a", "\ufeff#!x\n1", "#!(\n)", "#!\"\n\"",
                     "#!;\n1", "#_#!x\n1", "#!" + "y" * 5000, "#!" + "y" * 5000 + "\n(ok)"]
         for t in SHEBANGS:
